@@ -82,8 +82,12 @@ def _meta(rng):
         return {"type": "channel_prefix", "channel": rng.randrange(16)}
     if r < 0.88:
         return {"type": "sequence_number", "number": rng.randrange(65536)}
-    if r < 0.95:
+    if r < 0.93:
         return {"type": "sequencer_specific", "data": [rng.randrange(128) for _ in range(rng.randrange(1, 5))]}
+    if r < 0.97:
+        # a meta event of a type mido has no name for (it reads and writes it as 'unknown_meta')
+        return {"type": "unknown_meta", "type_byte": rng.choice([0x0A, 0x0B, 0x10, 0x4A, 0x60, 0x7E]),
+                "data": [rng.randrange(256) for _ in range(rng.randrange(0, 5))]}
     return {"type": "smpte_offset", "frame_rate": rng.choice([24, 25, 30]), "hours": rng.randrange(24),
             "minutes": rng.randrange(60), "seconds": rng.randrange(60), "frames": rng.randrange(24),
             "sub_frames": rng.randrange(100)}
@@ -105,18 +109,27 @@ def make_perf_spec(rng, size=1.0, kind=None, hostile=None):
         kind = "list"
     if hostile == "gaps":
         kind = "part"
+    if hostile == "conductor":
+        kind = rng.choice(["performance", "list"])
     ppq = rng.choice(PPQS + [480, rng.randrange(24, 2001)])
     mpq = rng.choice(MPQS + [500000, rng.randrange(100000, 1500001)])
+    np_ppq = rng.random() < 0.1       # the resolution is handed over as a 32-bit numpy integer (as read from an array)
+    if np_ppq and rng.random() < 0.7:
+        ppq = rng.choice([2400, 4800, 9600, 15360])
     merge_save = rng.random() < 0.25
     merge_load = rng.random() < 0.25
     merged = merge_save or merge_load
     nparts = 1 if kind == "part" else rng.choice([1, 2, 2, 3, 4])
+    if hostile == "untracked":
+        nparts = 1
     clock = Clock(rng, ppq, mpq)
     span = rng.choice([3, 40, 400, 4000])             # tick units between events
     max_notes = max(1, int(rng.choice([2, 6, 20, 60]) * size))
 
     # tracks: a permutation of 0..T-1 spread over the parts
     per_part = [rng.choice([1, 1, 2]) if kind != "part" else rng.choice([1, 2, 3]) for _ in range(nparts)]
+    if hostile == "untracked":
+        per_part = [1]
     T = sum(per_part)
     numbers = list(range(T))
     rng.shuffle(numbers)
@@ -212,11 +225,23 @@ def make_perf_spec(rng, size=1.0, kind=None, hostile=None):
         for _ in range(rng.choice([0, 0, 1, 3])):
             t = 0.0 if rng.random() < 0.4 else clock.draw(0, span * 10)[1]
             m = _fix_meta(_meta(rng))
+            if m["type"] == "unknown_meta":
+                t = 0.0            # (see make_midi_spec: only a delta time of zero survives mido's reader)
             m.update(time=t, track=rng.choice(tracks))
             metas.append(m)
         parts.append({"notes": notes, "controls": controls, "programs": programs, "key_signatures": keys,
                       "time_signatures": tsigs, "meta_other": metas})
-    return {"kind": kind, "hostile": hostile, "ensure_unique_tracks": rng.random() < 0.6,
+    if hostile == "conductor":
+        # a part that holds signatures and other meta events only, on a track of its own (the usual conductor track)
+        tr = max(numbers) + 1
+        keys = [{"time": 0.0, "fifths": rng.randrange(-7, 8), "mode": rng.choice(["major", "minor"]), "track": tr}]
+        tsigs = [{"time": 0.0 if rng.random() < 0.5 else clock.draw(0, span * 10)[1], "beats": rng.choice([2, 3, 4, 6]), "beat_type": rng.choice([2, 4, 8]), "track": tr}]
+        metas = []
+        if rng.random() < 0.5:
+            metas.append(dict(_fix_meta({"type": "text", "text": rng.choice(WORDS)}), time=0.0, track=tr))
+        parts.insert(rng.randrange(len(parts) + 1), {"notes": [], "controls": [], "programs": [], "key_signatures": keys,
+                                                     "time_signatures": tsigs, "meta_other": metas})
+    return {"kind": kind, "hostile": hostile, "ensure_unique_tracks": rng.random() < 0.6, "np_ppq": np_ppq,
             "as_tuple": rng.random() < 0.2, "ppq": ppq, "mpq": mpq, "merge_save": merge_save, "merge_load": merge_load,
             "out": rng.choice(["none", "path", "path", "bytes"]), "loader": rng.choice(["midi", "midi", "dispatch"]),
             "np_times": rng.random() < 0.15, "parts": parts}
@@ -235,6 +260,13 @@ def build_performance(spec):
         for m in p["meta_other"]:
             if "data" in m:
                 m["data"] = tuple(m["data"])
+        if spec.get("hostile") == "untracked":
+            # events given without a track number belong to track 0, like notes given without one
+            for lst in (p["controls"], p["programs"], p["key_signatures"], p["time_signatures"], p["meta_other"]):
+                for e in lst:
+                    e.pop("track", None)
+            for n in p["notes"]:
+                n["track"] = 0
         pps.append(PerformedPart(p["notes"], id=f"P{pi}", controls=p["controls"], programs=p["programs"],
                                  key_signatures=p["key_signatures"], time_signatures=p["time_signatures"],
                                  meta_other=p["meta_other"], ppq=spec["ppq"], mpq=spec["mpq"]))
@@ -242,8 +274,10 @@ def build_performance(spec):
         return pps[0]
     if spec["kind"] == "list":
         return tuple(pps) if spec.get("as_tuple") else pps
-    before = [[(o["track"]) for o in p["notes"] + p["controls"] + p["programs"]] for p in spec["parts"]]
+    before = [[(o.get("track", 0)) for o in p["notes"] + p["controls"] + p["programs"]] for p in spec["parts"]]
     perf = Performance(pps, id="perf", ensure_unique_tracks=spec["ensure_unique_tracks"])
+    if spec.get("hostile") == "untracked":
+        return perf          # (nothing to re-map: the events have no track number)
     # Performance() may renumber the tracks of notes/controls/programs; signatures and other
     # meta events follow their track ("the Performance object as it is when saved")
     for pp, old in zip(perf.performedparts, before):
@@ -342,6 +376,8 @@ def make_midi_spec(rng, size=1.0):
             else:
                 m = _fix_meta(_meta(rng))
                 ty = m.pop("type")
+                if ty == "unknown_meta":
+                    t = 0          # mido drops the delta time of a meta event it has no name for when it reads a file
                 evs.append((t, seq, ty, m))
             seq += 1
         tracks_abs.append(evs)
@@ -376,7 +412,7 @@ def make_midi_spec(rng, size=1.0):
 
 
 META_TYPES = set(TEXT_METAS) | {"midi_port", "channel_prefix", "sequence_number", "sequencer_specific", "smpte_offset",
-                                "key_signature", "time_signature", "set_tempo", "end_of_track"}
+                                "key_signature", "time_signature", "set_tempo", "end_of_track", "unknown_meta"}
 
 
 def build_midifile(spec):
@@ -388,7 +424,10 @@ def build_midifile(spec):
             prm = dict(prm)
             if "data" in prm:
                 prm["data"] = tuple(prm["data"])
-            if kind in META_TYPES:
+            if kind == "unknown_meta":
+                from mido.midifiles.meta import UnknownMetaMessage
+                tr.append(UnknownMetaMessage(prm["type_byte"], data=prm.get("data", ()), time=delta))
+            elif kind in META_TYPES:
                 tr.append(mido.MetaMessage(kind, time=delta, **prm))
             else:
                 tr.append(mido.Message(kind, time=delta, **prm))
